@@ -15,7 +15,7 @@ def scenarios(tier, seed):
     scs = []
 
     def add(**kw):
-        d = dict(k=0, closer="api", graceful=False, second="", blockWrite=False, slowState=False, restart=False, preGather=False, writer=False, tcp=False)
+        d = dict(k=0, closer="api", graceful=False, second="", blockWrite=False, slowState=False, restart=False, preGather=False, writer=False, tcp=False, viaConn=False)
         d.update(kw)
         d["id"] = len(scs) + 1
         scs.append(d)
@@ -33,6 +33,11 @@ def scenarios(tier, seed):
             add(k=k, closer=closer, writer=True, second="close")
         add(k=k, preGather=True)
         add(k=k, preGather=True, graceful=True)
+        if k >= 6:   # the application closes through the net.Conn it got from Dial, from its own goroutine or from a handler
+            add(k=k, viaConn=True, writer=True)
+            add(k=k, viaConn=True, second="graceful")
+            for closer in ("cbstate", "cbcand", "cbpair"):
+                add(k=k, closer=closer, viaConn=True)
     for k in (0, 1, 3):   # ICE-TCP: the agent's answer to the peer's check is (or is not) stuck in a blocked stream write
         for graceful in (False, True):
             for bw in (False, True):
@@ -56,7 +61,7 @@ def features(pred, lines, idx):
             cfg = b.get("cfg", {})
             break
     f = {"predicate": pred, "ev": e["ev"], "who": e.get("who", ""), "err": e.get("err", "")[:60]}
-    for k in ("closer", "graceful", "second", "blockWrite", "slowState", "restart", "preGather", "writer", "tcp"):
+    for k in ("closer", "graceful", "second", "blockWrite", "slowState", "restart", "preGather", "writer", "tcp", "viaConn"):
         f["sc_" + k] = cfg.get(k)
     return f, cfg
 
